@@ -309,3 +309,15 @@ uint64_t ts_verif_hash_ref_counts(const TSTree *tree) {
   verif_hash_rc(tree->root, &h);
   return h;
 }
+
+// A yield hook for ThreadSanitizer runs: performs an acquire load of the reference count that is about to be read
+// plainly, i.e. it tells the race detector that "count == 1, so I own this node" is ordered after the release of the
+// previous owner (which is how the plain volatile read plus the control dependency on it behave on real hardware).
+static void ts_verif_acquire_yield(int kind, const volatile void *address) {
+  (void)kind;
+  (void)__atomic_load_n((const volatile uint32_t *)address, __ATOMIC_ACQUIRE);
+}
+
+void ts_verif_install_acquire_hook(void) {
+  ts_verif_yield_hook = ts_verif_acquire_yield;
+}
